@@ -93,18 +93,19 @@ def bounds(tier):
                                                                               else "1 listed motion"),
         "noise": "one coordinate of one atom displaced by +-m1, +-m2 (palette by seed), before the motion",
         "masks": "all subsets with >= 1 atom of every set with n >= 2 (listed sets: all 2^n-1)"
-                 + ("; 5-point lattice sets with magnitude m2 and 3 of the motions only" if tier == "thorough"
+                 + ("; 5-point lattice sets with magnitude m2 and 2 of the motions only" if tier == "thorough"
                     else "; 4-point and listed sets with magnitude m2 only"),
         "containers": "9 x 9 (fixed, mobile) over ndarray f64/f32, AtomArray, ndarray stack depth 1/2/3, "
                       "AtomArrayStack depth 1/2/3, x mask {none, full, partial} x {exact, noisy} geometry over all "
                       + ("1..4" if tier == "thorough" else "1..3") + "-point lattice sets + listed sets"
-                      + ("" if tier == "thorough" else " (3-point sets: noisy geometry only)"),
+                      + (" (4-point sets: noisy geometry only)" if tier == "thorough"
+                         else " (3-point sets: noisy geometry only)"),
         "homolog_variants": "3 geometries x min_anchors {1,2,3} x max_iterations {default, 1"
                             + ("" if tier == "thorough" else " (geometry #1 only)") + "} + min_anchors 4 + hetero tail"
                             " + mobile stack + both stacks",
         "outlier_params": "min_anchors {1,3,n} x max_iterations {1,2,10} x (quantiles,threshold) "
                           "{((.25,.75),1.5), ((.9,.1),.5), ((.4,.6),0)} on the listed sets (displacements +-m1, +-m2, "
-                          "+-3; " + ("6" if tier == "thorough" else "2") + " motions; also mobile stacks of depth 2); "
+                          "+-3 on top of a fixed +0.375 on the last atom; " + ("6" if tier == "thorough" else "2") + " motions; also mobile stacks of depth 2); "
                           + ("all 3- and 4-point lattice sets x all displacements x 11 of the triples" if tier == "thorough"
                              else "all 4-point lattice sets x displacements +-m2 x 5 listed triples"),
         "homolog_sequences": ("peptides {ALA,GLY,SER}^2..4 both sides" if tier == "thorough" else
@@ -296,6 +297,7 @@ def run_fit_batch(ctx, desc, focus=None):
         return
     ctx.ev(m, count_nontrivial(desc, items))
     ctx.count("accepted", m)
+    ctx.count("ev_fit_%s_%s_%s" % (mode, noise_cls(desc), "nomask" if mask is None else "mask"), m)
     F_in = F.copy()
     probe_in = np.broadcast_to(PROBE, (m, 5, 3)).copy()
     try:
@@ -460,6 +462,7 @@ def run_shape_case(ctx, desc, focus=None):
         return
     ctx.ev(1, 1 if n >= 2 else 0)
     ctx.count({"accept": "accepted", "either": "unspecified", "refuse": "refused"}[exp])
+    ctx.count("ev_shape")
     try:
         kw = {} if mask is None else {"atom_mask": mask.copy()}
         fitted, tr = struc.superimpose(fobj, mobj, **kw)
@@ -591,6 +594,7 @@ def run_outlier_batch(ctx, desc, focus=None):
         ccase = {**case, "focus": ci}
         ctx.ev(1, 1)
         ctx.count("accepted")
+        ctx.count("ev_outlier_" + ("stack2" if desc.get("stack") else "array"))
         try:
             fitted, tr, anchors = struc.superimpose_without_outliers(
                 F.copy(), mobile.astype(np.float32), min_anchors=ma, max_iterations=mi, quantiles=q,
@@ -802,6 +806,7 @@ def run_homolog_case(ctx, case):
                                "/hetero" if case.get("hetero") else "")
     ctx.ev(1, 1)
     ctx.count({"accept": "accepted", "either": "unspecified", "refuse": "refused"}[exp])
+    ctx.count("ev_homolog_%dchain" % len(fch))
     mkeep = mobile.coord.copy()
     try:
         res = struc.superimpose_homologs(fixed, mobile, **kw)
@@ -1040,7 +1045,7 @@ def fit_descs(shard, tier, seed):
                        "mask": None}
         elif space == "mask":
             mg = mags if (th and size != 5) or (size in (2, 3)) else [mags[1]]
-            mo = M6[:3] if size == 5 else M6
+            mo = M6[1:3] if size == 5 else M6
             for mask in all_masks(n):
                 yield {**base, "mode": "stack", "rots": [], "motions": [list(x) for x in mo], "mags": mg,
                        "mask": mask}
@@ -1053,7 +1058,7 @@ def shape_descs(shard, tier, seed):
         if si % shard["parts"] != shard["part"]:
             continue
         for var in ("exact", "noisy"):
-            if var == "exact" and tier == "quick" and shard["size"] == 3:
+            if var == "exact" and shard["size"] == (3 if tier == "quick" else 4):
                 continue
             for fc in CONTAINERS:
                 for mc in CONTAINERS:
@@ -1085,6 +1090,19 @@ def outlier_descs(shard, tier, seed):
 
 
 def run_shard(shard, ctx):
+    import os
+    import time
+
+    t0 = time.process_time()
+    try:
+        _run_shard(shard, ctx)
+    finally:
+        if os.environ.get("C16_PROFILE"):
+            ctx.count("cpu_ms_%s_%s_%s" % (shard["kind"], shard.get("space", shard.get("fam", "")), shard.get("size", "")),
+                      int(1000 * (time.process_time() - t0)))
+
+
+def _run_shard(shard, ctx):
     k = shard["kind"]
     if k == "fit":
         for d in fit_descs(shard, ctx.tier, ctx.seed):
